@@ -22,6 +22,7 @@ import (
 type chPoint struct {
 	opts   []string
 	chosen int
+	free   bool // a non-default pick here costs no deviation (e.g. the running thread blocked: any switch is free)
 }
 
 type xrun struct {
@@ -36,8 +37,13 @@ type xrun struct {
 	devs     int
 }
 
+// chooseFree is choose for a point whose alternatives cost no deviation.
+func (r *xrun) chooseFree(opts []string) string { return r.chooseC(opts, true) }
+
 // choose returns the label to take at this choice point; opts[0] is the default.
-func (r *xrun) choose(opts []string) string {
+func (r *xrun) choose(opts []string) string { return r.chooseC(opts, false) }
+
+func (r *xrun) chooseC(opts []string, free bool) string {
 	i := len(r.points)
 	pick := 0
 	if i < len(r.prefix) {
@@ -52,10 +58,10 @@ func (r *xrun) choose(opts []string) string {
 			pick = 0
 		}
 	}
-	if pick != 0 {
+	if pick != 0 && !free {
 		r.devs++
 	}
-	r.points = append(r.points, chPoint{opts: append([]string(nil), opts...), chosen: pick})
+	r.points = append(r.points, chPoint{opts: append([]string(nil), opts...), chosen: pick, free: free})
 	return opts[pick]
 }
 
@@ -177,7 +183,11 @@ func exploreDFS(bound int, maxExec int, deadline time.Time, only []string, beat 
 			devs := 0
 			for i := 0; i < lim; i++ {
 				if i >= len(prefix) {
-					if devs+1 <= b {
+					cost := 1
+					if r.points[i].free {
+						cost = 0
+					}
+					if devs+cost <= b {
 						for alt := len(r.points[i].opts) - 1; alt >= 1; alt-- {
 							if len(prefix) == 0 && parts > 1 {
 								// the first-level subtrees of a scenario are dealt round-robin to its parts
@@ -195,7 +205,7 @@ func exploreDFS(bound int, maxExec int, deadline time.Time, only []string, beat 
 						}
 					}
 				}
-				if r.points[i].chosen != 0 {
+				if r.points[i].chosen != 0 && !r.points[i].free {
 					devs++
 				}
 			}
